@@ -255,4 +255,41 @@ theorem sepPreserved_convMG (G : MG) (hwf : G.WF) (hnd : G.nodes.Nodup) (hun : G
     (hsl : MG.NoSelfLoop G) : SepPreserved G (convMG G) :=
   sepPreserved_of_isConv (isConv_convMG hwf hnd hun) hsl
 
+/-- the clause of the structure sentence about one new node, with unbounded quantifiers (as in the
+    English statement): `u` is a node of the result, distinct from all nodes of G, nothing points to
+    it, and its children are exactly the two endpoints -/
+theorem newNodeFor_iff (G : LG α) (R : DG α) (u : α) (e : α × α) :
+    NewNodeFor G R u e ↔
+      (u ∈ R.names ∧ (∀ v ∈ G.names, u ≠ v) ∧ (∀ p, (p, u) ∉ R.edges) ∧
+       ∀ c, (u, c) ∈ R.edges ↔ (c = e.1 ∨ c = e.2)) := by
+  constructor
+  · rintro ⟨h1, h2, h3, h4, h5, h6⟩
+    refine ⟨h1, fun v hv huv => h2 (huv ▸ hv), fun p hp => h3 _ hp rfl, ?_⟩
+    intro c
+    constructor
+    · intro h; exact h6 _ h rfl
+    · rintro (rfl | rfl)
+      · exact h4
+      · exact h5
+  · rintro ⟨h1, h2, h3, h4⟩
+    refine ⟨h1, fun hu => h2 u hu rfl, ?_, (h4 _).mpr (Or.inl rfl), (h4 _).mpr (Or.inr rfl), ?_⟩
+    · rintro ⟨p, c⟩ hq rfl; exact h3 p hq
+    · rintro ⟨p, c⟩ hq rfl; exact (h4 c).mp hq
+
+theorem idxOf_inj_on {l : List α} : ∀ a ∈ l, ∀ b ∈ l, l.idxOf a = l.idxOf b → a = b := by
+  intro a ha b hb h
+  have h1 := List.getElem_idxOf (List.idxOf_lt_length_iff.mpr ha)
+  have h2 := List.getElem_idxOf (List.idxOf_lt_length_iff.mpr hb)
+  rw [← h1, ← h2]
+  simp only [h]
+
+/-- the numbering the harness uses: position in the result's node dict (original nodes first) -/
+def idxEnc (R : DG α) (a : α) : Nat := R.names.idxOf a
+
+/-- **C10 for the model of the code, no side hypothesis on the numbering** -/
+theorem C10_full_idx {G : LG String} (hwf : G.WF) (hacy : G.dirDG.IsDAG) (hsl : G.NoSelfLoop) :
+    Struct G (convS G) ∧
+    SepPreserved (G.encode (idxEnc (convS G))) ((convS G).encode (idxEnc (convS G))) :=
+  C10_full hwf hacy hsl _ (fun a ha b hb h => idxOf_inj_on a ha b hb h)
+
 end C10
